@@ -60,6 +60,8 @@ type Beh struct {
 	Solo    int      `json:"solo"`    // percent of barriers followed by a solo (sequential) relay
 	Ext     int      `json:"ext"`     // percent of calls that ask for addon "a1" (0 = base model only)
 	Drop    []string `json:"drop"`    // providers missing from every second pairing list
+	Tight   int      `json:"tight"`   // > 0: "tight budget" behaviour with that many rounds (see execTight)
+	Snap    int      `json:"snap"`    // tight: complete-state barrier every Snap rounds (default 1)
 }
 
 type Input struct {
@@ -301,6 +303,12 @@ func (r *run) relay(who int, rng *rand.Rand, up **lavasession.UsedProviders, gat
 	r.mu.Lock()
 	ve := r.veNow
 	r.mu.Unlock()
+	return r.relayWith(who, rng, *up, fresh, cu, ve, gate)
+}
+
+func (r *run) relayWith(who int, rng *rand.Rand, usedProv *lavasession.UsedProviders, fresh bool, cu, ve uint64, gate func() bool) bool {
+	b := r.b
+	up := &usedProv
 	addon := ""
 	if b.Ext > 0 && rng.Intn(100) < b.Ext {
 		addon = "a1"
@@ -463,6 +471,9 @@ func settle() {
 }
 
 func execBeh(b Beh, addr string) []ev {
+	if b.Tight > 0 {
+		return execTight(b, addr)
+	}
 	rng := rand.New(rand.NewSource(b.Seed))
 	opt := provideroptimizer.NewProviderOptimizer(provideroptimizer.StrategyBalanced, 0, 1, nil, "dontcare")
 	opt.SetDeterministicSeed(b.Seed)
@@ -587,6 +598,114 @@ func execBeh(b Beh, addr string) []ev {
 	wg.Wait()
 	settle()
 	time.Sleep(2 * time.Millisecond)
+	r.tr.log(r.snapshot("final"))
+	return r.tr.evs
+}
+
+// execTight: the "tight budget" phase.  Every provider has MaxComputeUnits = the requested CU, round k runs in virtual
+// epoch k, and every relay of a round is completed before the next one: at the start of a round each provider has room
+// for exactly ONE more relay.  G goroutines are released together and call GetSessions for that CU; while they start,
+// the endpoints' mutexes are held for a millisecond (what a slow dial does: the first relay waits for the endpoint
+// while it holds the provider lock, the others queue on the provider), so that they reach the reservation together.
+// The relays that got a session log "got" with the provider's used CU; then a barrier snapshot is taken with the
+// sessions still in flight, and the relays are completed with OnSessionDone.
+func execTight(b Beh, addr string) []ev {
+	opt := provideroptimizer.NewProviderOptimizer(provideroptimizer.StrategyBalanced, 0, 1, nil, "dontcare")
+	opt.SetDeterministicSeed(b.Seed)
+	r := &run{b: b, addr: addr, tr: &trace{}, objs: map[uint64]map[string]*lavasession.ConsumerSessionsWithProvider{},
+		sids: map[*lavasession.SingleConsumerSession]int{}, hold: map[*lavasession.SingleConsumerSession]int{}}
+	r.cond = sync.NewCond(&r.mu)
+	r.csm = lavasession.NewConsumerSessionManager(&lavasession.RPCEndpoint{NetworkAddress: "stub", ChainID: "stub", ApiInterface: "stub", HealthCheckPath: "/"},
+		opt, nil, "lava@test", lavasession.NewActiveSubscriptionProvidersStorage())
+	list, names := r.pairingList(1, nil)
+	r.epochNow = 1
+	if err := r.csm.UpdateAllProviders(1, list, nil); err != nil {
+		panic(err)
+	}
+	r.tr.log(ev{"ev": "reset", "beh": b.ID, "provs": names, "supp": []string{}, "g": b.G, "maxcu": b.MaxCU, "np": b.NP, "seedv": b.Seed,
+		"maxsess": lavasession.MaxSessionsAllowedPerProvider, "tight": b.Tight})
+	var epMus []*sync.RWMutex
+	for _, o := range list {
+		for _, ep := range o.Endpoints {
+			epMus = append(epMus, (*sync.RWMutex)(unsafe.Pointer(reflect.ValueOf(ep).Elem().FieldByName("mu").UnsafeAddr())))
+		}
+	}
+	cu := b.CUs[0]
+	snap := b.Snap
+	if snap <= 0 {
+		snap = 1
+	}
+	ids := make([]int, b.G)
+	for i := range ids {
+		ids[i] = i + 1
+	}
+	type held struct {
+		who int
+		s   *lavasession.SingleConsumerSession
+	}
+	for round := 0; round < b.Tight; round++ {
+		ve := uint64(round)
+		r.tr.log(ev{"ev": "callN", "rs": ids, "cu": cu, "ve": ve, "fresh": true, "unw": []string{}, "addon": ""})
+		var start int32
+		var wg sync.WaitGroup
+		var hmu sync.Mutex
+		got := []held{}
+		failed := []int{}
+		for _, who := range ids {
+			wg.Add(1)
+			go func(who int) {
+				defer wg.Done()
+				for atomic.LoadInt32(&start) == 0 {
+				}
+				css, err := r.csm.GetSessions(context.Background(), 1, cu, lavasession.NewUsedProviders(nil), 10, "", []*spectypes.Extension{}, common.NO_STATE, ve, "", "")
+				if err != nil || len(css) != 1 {
+					hmu.Lock()
+					failed = append(failed, who)
+					hmu.Unlock()
+					return
+				}
+				for prov, info := range css {
+					s := info.Session
+					r.setHold(s, who)
+					rsess := lavaprotocol.ConstructRelaySession("lava", &pairingtypes.RelayPrivateData{}, "spec", prov, s, int64(info.Epoch), info.ReportedProviders)
+					r.tr.logWith(ev{"ev": "got", "r": who, "p": prov, "pp": s.Parent.PublicLavaAddress, "e": info.Epoch, "pe": s.Parent.GetPairingEpoch(),
+						"sid": r.sid(s), "rn": clamp(s.RelayNum), "cusum": clamp(s.CuSum), "lcu": clamp(s.LatestRelayCu), "bl": s.BlockListed,
+						"scu": clamp(rsess.CuSum), "srn": clamp(rsess.RelayNum), "sprov": rsess.Provider, "sepoch": rsess.Epoch,
+						"rep": []string{}, "max": clamp(s.Parent.MaxComputeUnits), "addon": ""},
+						func(e ev) {
+							s.Parent.Lock.RLock()
+							e["used"] = clamp(s.Parent.UsedComputeUnits)
+							s.Parent.Lock.RUnlock()
+						})
+					hmu.Lock()
+					got = append(got, held{who, s})
+					hmu.Unlock()
+				}
+			}(who)
+		}
+		for _, m := range epMus {
+			m.Lock()
+		}
+		atomic.StoreInt32(&start, 1)
+		time.Sleep(time.Millisecond)
+		for _, m := range epMus {
+			m.Unlock()
+		}
+		wg.Wait()
+		sort.Ints(failed)
+		r.tr.log(ev{"ev": "nogotN", "rs": failed})
+		if round%snap == 0 || round == b.Tight-1 {
+			r.tr.log(r.snapshot("tight"))
+		}
+		sort.Slice(got, func(i, j int) bool { return got[i].who < got[j].who })
+		for _, h := range got {
+			r.tr.log(ev{"ev": "end", "r": h.who, "kind": "done"})
+			r.setHold(h.s, 0)
+			rerr := r.csm.OnSessionDone(h.s, 10, cu, time.Millisecond, 2*time.Millisecond, 0, 1, uint64(b.NP), false, nil)
+			r.tr.log(ev{"ev": "ret", "r": h.who, "err": errClass(rerr)})
+		}
+	}
+	settle()
 	r.tr.log(r.snapshot("final"))
 	return r.tr.evs
 }
